@@ -45,7 +45,7 @@ func precSpelling(r *rand.Rand, prec int) string {
 }
 
 func checkC14(c *Ctx) {
-	c.rule = "(0) 长度 / 字数 / 字符组 of a text variable read again after the number / list handed out was changed in place (自增 / 自减 / 后增 / 前增, through a copy, as an argument, as a literal item): equal to the first read and to the number of characters; (1) text operations through the element API: for texts over ASCII/CJK/astral/combining characters and U+FFFD, NUL, U+FEFF, U+2028, U+FFFF, U+10FFFF, the encoding-length boundaries U+0080 / U+07FF / U+0800, 长度 == 字数 == len(字符组) == number of code points; 取样(i,j) for every pair in [-(n+2), n+2]^2 (all pairs for n<=10, random beyond): inside 1<=i<=j<=n it must equal characters i..j of 字符组 joined, elsewhere any result must be valid UTF-8 (never half a character); every pair is repeated on a shadow text of equally many distinct one-byte characters and must select the same positions with the same outcome kind (counting must not depend on byte lengths); 分隔 then 拼接 with the same separator is the identity; 24 texts x 13 separators (1..4 bytes per character, shorter / as long as / longer than the text, overlapping patterns): the pieces are the stretches between the occurrences; the same laws through Zn programs; (2) formatting ‹template› % ‹list› through Zn programs: templates mixing literal text and the documented placeholders {} {#} {#.N} {#+} {#.N%} {#.NE} (N in 0..40, also written with leading zeros) with doubles from a boundary pool and random; expected text built from Python %-formatting; {} must insert exactly what 显示 prints for a value of any kind (objects, types, methods, exceptions, nested collections); templates that must be errors (count mismatch, numeric directive on a non-number, unbalanced/nested braces, directive not starting with #, # followed by other characters, absurd precision). distinct_nontrivial = distinct (family, text shape / directive sequence, outcome)"
+	c.rule = "(0) 长度 / 字数 / 字符组 of a text variable read again after the number / list handed out was changed in place (自增 / 自减 / 后增 / 前增, through a copy, as an argument, as a literal item): equal to the first read and to the number of characters; (1) text operations through the element API: for texts over ASCII/CJK/astral/combining characters and U+FFFD, NUL, U+FEFF, U+2028, U+FFFF, U+10FFFF, the encoding-length boundaries U+0080 / U+07FF / U+0800, 长度 == 字数 == len(字符组) == number of code points; 取样(i,j) for every pair in [-(n+2), n+2]^2 (all pairs for n<=10, random beyond): inside 1<=i<=j<=n it must equal characters i..j of 字符组 joined, elsewhere any result must be valid UTF-8 (never half a character); every pair is repeated on a shadow text of equally many distinct one-byte characters and must select the same positions with the same outcome kind (counting must not depend on byte lengths); 分隔 then 拼接 with the same separator is the identity; 24 texts x 13 separators (1..4 bytes per character, shorter / as long as / longer than the text, overlapping patterns): the pieces are the stretches between the occurrences; the same laws through Zn programs; (2) formatting ‹template› % ‹list› through Zn programs: templates mixing literal text and the documented placeholders {} {#} {#.N} {#+} {#.N%} {#.NE} (N in 0..40 and up to 1000, also written with leading zeros) with doubles from a boundary pool and random; expected text built from Python %-formatting; {} must insert exactly what 显示 prints for a value of any kind (objects, types, methods, exceptions, nested collections); templates that must be errors (count mismatch, numeric directive on a non-number, unbalanced/nested braces, directive not starting with #, # followed by other characters, absurd precision). distinct_nontrivial = distinct (family, text shape / directive sequence, outcome)"
 	c.assumptions = []string{"Python % formatting is the reference for the numeric directives", "{} is exercised with texts, booleans, 空 and small integers only (display spelling of doubles is unspecified)", "percent rendering is judged only where x*100 in double and exact decimal scaling agree"}
 	rng := c.Rand("c14")
 	py, err := startPyOracle(c.Root)
@@ -376,6 +376,10 @@ func checkC14(c *Ctx) {
 			prec := rng.Intn(9)
 			if rng.Intn(6) == 0 {
 				prec = rng.Intn(41)
+			}
+			if rng.Intn(20) == 0 {
+				// up to the largest precision the implementation accepts for any directive
+				prec = []int{99, 100, 308, 500, 997, 998, 999, 1000}[rng.Intn(8)]
 			}
 			kind := rng.Intn(6)
 			switch kind {
